@@ -188,10 +188,17 @@ FRAMES = [('', ''), ('a', 'a'), ('> ', ''), ('- ', ''), ('# ', ''), ('[', '](u)'
           ('| a | b |\n|', 'x|'), ('a|b\n', 'x'), ('a|b\n-', '|x'), ('para\n| a |\n| ', 'x')]
 
 
+_ESCAPES = [x for x in SNIPPETS if x.startswith('\\') and len(x) >= 2 and x != '\\\n']
+_OPENERS = [f for f in FRAMES if f[0] and not f[1] and not f[0].endswith(' ')]
+
+
 def pumped(t, max_len=4096):
     a = t.choice(SNIPPETS)
     b = t.choice(SNIPPETS) if t.chance(90) else ''
     pre, suf = t.choice(FRAMES)
+    if t.chance(30):
+        # the class that blows up patterns with overlapping alternatives: an opener that is never closed, then one escape repeated
+        a, b, (pre, suf) = t.choice(_ESCAPES), '', t.choice(_OPENERS)
     unit = a + b
     top = max(1, (max_len - len(pre) - len(suf)) // max(1, len(unit)))
     n = 1 + t.below(min(top, 65536)) if t.chance(128) else 1 + t.below(min(top, 40))
